@@ -38,8 +38,14 @@ Verdict(v) ==
     [] kind = "rel" -> IF Lt(v, Exact(ta)) THEN <<ERROR, "low">>
                        ELSE IF Lt(v, Exact(tb)) THEN <<WARN, "uncertain">> ELSE <<OK, "reliable">>
 
-InitialReport(ini) == IF ini = "nodata" THEN [status |-> ERROR, verdict |-> "nodata", value |-> Empty]
-                                         ELSE [status |-> STALE, verdict |-> "none", value |-> Empty]
+\* ini: "stale" (default diagnostic), "nodata" (rate check-ups), or "custom0".."custom3": an initial diagnostic with that
+\* status and some other message handed to the constructor
+InitialReport(ini) == CASE ini = "nodata" -> [status |-> ERROR, verdict |-> "nodata", value |-> Empty]
+                         [] ini = "custom0" -> [status |-> OK, verdict |-> "custom", value |-> Empty]
+                         [] ini = "custom1" -> [status |-> WARN, verdict |-> "custom", value |-> Empty]
+                         [] ini = "custom2" -> [status |-> ERROR, verdict |-> "custom", value |-> Empty]
+                         [] ini = "custom3" -> [status |-> STALE, verdict |-> "custom", value |-> Empty]
+                         [] OTHER -> [status |-> STALE, verdict |-> "none", value |-> Empty]
 InitWith(kd, a, b, ini) == /\ kind = kd /\ ta = a /\ tb = b
                            /\ report = InitialReport(ini) /\ returned = None
 SetUp(kd, a, b, ini)    == /\ kind' = kd /\ ta' = a /\ tb' = b
@@ -62,12 +68,13 @@ Meaning(v, st) ==
   CASE kind = "eq"  -> (st = OK) <=> (Le(Exact(ta - tb), v) /\ Le(v, Exact(ta + tb)))   \* |v - target| <= eps
     [] kind = "gt"  -> (st = OK) <=> Lt(Exact(ta - tb), v)                               \* v > min - eps
     [] kind = "lt"  -> (st = OK) <=> Lt(v, Exact(ta + tb))                               \* v < max + eps
-    [] kind = "rel" -> /\ (st = ERROR) <=> Lt(v, Exact(ta))
-                       /\ (st = WARN)  <=> (Le(Exact(ta), v) /\ Lt(v, Exact(tb)))
-                       /\ (st = OK)    <=> Le(Exact(tb), v)
+    [] kind = "rel" -> /\ (st = ERROR) <=> Lt(v, Exact(ta))                            \* ERROR below the low threshold,
+                       /\ (st = WARN)  <=> (~Lt(v, Exact(ta)) /\ Lt(v, Exact(tb)))       \* (otherwise) WARN below the high one,
+                       /\ (st = OK)    <=> (~Lt(v, Exact(ta)) /\ ~Lt(v, Exact(tb)))      \* and OK otherwise - whatever the order of the thresholds
 
 (* status, verdict and value always belong together *)
 Coherent ==
+  report.verdict # "custom" =>                       \* (an initial diagnostic supplied by the caller is whatever the caller said)
   /\ report.verdict = "timeout" <=> (report.status = STALE /\ report.verdict # "none")
   /\ report.verdict \in {"timeout", "none", "nodata"} <=> report.value = Empty
   /\ report.verdict \in {"ok", "reliable"} <=> report.status = OK
